@@ -1584,6 +1584,12 @@ func init() {
 					c.Fail("node started with genesis %s on a database created with genesis %s: %s", h0, hprev, r2)
 				}
 			}
+			// 4b. the same scenario over every single FIELD of the configuration (s_genesis_startup.go): database created with
+			//     A = cfg, chain.Init with A-with-one-field-edited — header fields of the genesis momentum, node configuration,
+			//     order-only changes on every run, the state fields in rotation —, then A again
+			if k%3 == 1 {
+				startupForeignFields(c, tmp, id, cfg, k/3, 6)
+			}
 			prev = cfg
 		}
 	})
